@@ -67,8 +67,9 @@ cpdef bint check_working_hours_fast(
 
                 # Check for cross-midnight shift
                 if end_minutes <= start_minutes:
-                    # Working time: start_minutes <= slot < 1440 OR 0 <= slot < end_minutes
-                    if slot_minutes >= start_minutes or slot_minutes < end_minutes:
+                    # On its own day the interval covers start_minutes <= slot < 1440; the part after
+                    # midnight belongs to the next day (previous-day check below)
+                    if slot_minutes >= start_minutes:
                         return True
                 else:
                     # Normal interval
